@@ -24,6 +24,7 @@ import (
 	"github.com/notaryproject/notation-go/verifharness/lib"
 	"github.com/notaryproject/notation-go/verifier"
 	"github.com/opencontainers/go-digest"
+	pf "github.com/notaryproject/notation-plugin-framework-go/plugin"
 	ocispec "github.com/opencontainers/image-spec/specs-go/v1"
 	gocose "github.com/veraison/go-cose"
 )
@@ -135,6 +136,25 @@ func main() {
 			// foreign payload type and non-JSON payload, validly signed
 			pool = append(pool, env{"fresh-foreign-payload-type|" + f + "|" + scheme, f, lib.MustCoreSign(lib.SignSpec{Format: f, Scheme: signature.SigningScheme(scheme), Payload: lib.Payload(artA.Desc), ContentType: "application/json", Signer: good})})
 			pool = append(pool, env{"fresh-payload-without-target|" + f + "|" + scheme, f, lib.MustCoreSign(lib.SignSpec{Format: f, Scheme: signature.SigningScheme(scheme), Payload: []byte(`{}`), Signer: good})})
+		}
+	}
+	// a key bound to SHA-384: the blob digest must be recomputed with the hash of the SIGNATURE algorithm, not with the
+	// algorithm named in the payload's digest; and envelopes that demand a verification plugin (which then approves everything)
+	good384 := lib.SimpleChain("c01-384", 0, "EC-384", 0)
+	for _, f := range lib.Formats {
+		for _, a := range []art{artA, artB} {
+			right := ocispec.Descriptor{MediaType: a.Desc.MediaType, Digest: digest.SHA384.FromBytes(a.Blob), Size: a.Desc.Size}
+			wrongAlg := ocispec.Descriptor{MediaType: a.Desc.MediaType, Digest: digest.SHA256.FromBytes(a.Blob), Size: a.Desc.Size}
+			pool = append(pool, env{"fresh-sha384|" + f + "|" + a.Name, f, lib.MustCoreSign(lib.SignSpec{Format: f, Payload: lib.Payload(right), Signer: good384})})
+			pool = append(pool, env{"fresh-digest-algorithm-of-payload-differs-from-signature-hash|" + f + "|" + a.Name, f, lib.MustCoreSign(lib.SignSpec{Format: f, Payload: lib.Payload(wrongAlg), Signer: good384})})
+			for _, withMeta := range []bool{false, true} {
+				d := a.Desc
+				if withMeta {
+					d.Annotations = metaSigned
+				}
+				pool = append(pool, env{fmt.Sprintf("fresh-plugin-demanding|%s|%s|meta=%v", f, a.Name, withMeta), f, lib.MustCoreSign(lib.SignSpec{Format: f, Payload: lib.Payload(d), Signer: good,
+					Ext: []signature.Attribute{{Key: lib.HdrPlugin, Critical: true, Value: "plug"}, {Key: "com.example.crit", Critical: true, Value: "x"}}})})
+			}
 		}
 	}
 	nFresh := len(pool)
@@ -257,10 +277,12 @@ func main() {
 		if !c.Trusting {
 			L = lib.LevelMap{Auth: "log", TS: "log", Exp: "log", Rev: "skip"} // the most permissive non-skip level
 		}
-		ts := lib.NewMemTS().Put("ca:x", good.Root().Cert, goodRSA.Root().Cert).Put("signingAuthority:x", good.Root().Cert, goodRSA.Root().Cert)
+		ts := lib.NewMemTS().Put("ca:x", good.Root().Cert, goodRSA.Root().Cert, good384.Root().Cert).Put("signingAuthority:x", good.Root().Cert, goodRSA.Root().Cert)
+		// a verification plugin that approves whatever it is asked and processes every attribute
+		pm := lib.ScriptedManager{P: &lib.ScriptedPlugin{Caps: []pf.Capability{pf.CapabilityTrustedIdentityVerifier, pf.CapabilityRevocationCheckVerifier}}}
 		stores := []string{"ca:x", "signingAuthority:x"}
 		v, err := verifier.NewVerifierWithOptions(ts, verifier.VerifierOptions{OCITrustPolicy: lib.OCIPolicy(L.SV(ci), stores, []string{"*"}), BlobTrustPolicy: lib.BlobPolicy(L.SV(ci), stores, []string{"*"}),
-			RevocationCodeSigningValidator: lib.OKRev{}, RevocationTimestampingValidator: lib.OKRev{}})
+			RevocationCodeSigningValidator: lib.OKRev{}, RevocationTimestampingValidator: lib.OKRev{}, PluginManager: pm})
 		if err != nil {
 			panic(err)
 		}
